@@ -221,6 +221,9 @@ def finish(prop, tier, t0, results, items, assumptions, bounds, replay_fn=None, 
               json.dumps(sig['model'], default=str)[:300], str(rep.get('detail'))[:400]))
     wall = time.time() - t0
     vacuous = [k for k, v in (extra_cov or {}).get('must_reach', {}).items() if reach.get(k, 0) == 0]
+    for suf in (extra_cov or {}).get('must_reach_suffix', []):
+        if not any(k.endswith(suf) and v > 0 for k, v in reach.items()):
+            vacuous.append('*' + suf)
     cov = dict(states=max(1, stats['paths']), transitions=max(1, stats['discharged']),
                traces_validated_against_impl=replays + validated,
                samples=(samples + (extra_samples or []))[:16] or [dict(note='no obligations')],
@@ -235,7 +238,7 @@ def finish(prop, tier, t0, results, items, assumptions, bounds, replay_fn=None, 
                reachability=reach, item_errors=errors[:10],
                exhaustive=False)
     if extra_cov:
-        cov.update({k: v for k, v in extra_cov.items() if k != 'must_reach'})
+        cov.update({k: v for k, v in extra_cov.items() if k not in ('must_reach', 'must_reach_suffix')})
     ev = dict(property_id=prop, tier=tier, seed=seed, level=level, coverage=cov, assumptions=assumptions,
               wall_s=round(wall, 2), violations=len(violations))
     os.makedirs(os.path.join(ROOT, 'evidence'), exist_ok=True)
